@@ -181,6 +181,17 @@ def main():
             known_hit.append({"finding": f["id"], "args": cex, "detail": rep[0]["detail"]})
             excludes.append(f["match"])
         last = rounds[-1]
+        # paths the watchdog had to stop: replayed concretely under a wall-clock limit; a concrete hang is a violation
+        if violation is None and last.get("hangs"):
+            hrep, _ = run_replay(modname, o.id, last["hangs"][:2], timeout=200)
+            for h in hrep:
+                if h["outcome"] == "fail":
+                    f = match_finding(findings, o.id, h["args"])
+                    if f is None:
+                        violation = {"args": h["args"], "detail": h["detail"], "via": "watchdog + concrete replay"}
+                    else:
+                        known_hit.append({"finding": f["id"], "args": h["args"], "detail": h["detail"], "via": "watchdog"})
+                    break
         # witnesses of all rounds replayed concretely
         wit = []
         for rr in rounds:
